@@ -26,6 +26,7 @@ type Case struct {
 	Settle     []int `json:"settle"`     // settle time of each Wait call (1..2 calls)
 	Cancel     []int `json:"cancel"`     // context cancellation time of each call, relative to that call's start; -1 never
 	AddLate    []int `json:"addLate"`    // members (indexes) added only before the second call
+	ByMerge    bool  `json:"byMerge,omitempty"` // the late members arrive through Merge(other set) instead of Add
 }
 
 type callObs struct {
@@ -115,9 +116,18 @@ func runInBubble(c Case) (res result) {
 	}
 	for call := range c.Settle {
 		if call == 1 {
+			other := statedb.NewWatchSet()
 			for i := range late {
-				ws.Add(members[i])
+				if c.ByMerge {
+					other.Add(members[i])
+				} else {
+					ws.Add(members[i])
+				}
 				inSet[i] = true
+			}
+			if c.ByMerge {
+				ws.Merge(other)
+				res.classes = append(res.classes, "late_members_by_merge")
 			}
 		}
 		settle := time.Duration(c.Settle[call]) * time.Millisecond
@@ -149,8 +159,19 @@ func runInBubble(c Case) (res result) {
 				}()
 			}
 		}
+		// watchdog: a call that misses every close must not deadlock the bubble
+		// (it then returns empty although the context "never" ends: a violation below)
+		returned := make(chan struct{})
+		go func() {
+			select {
+			case <-time.After(60 * time.Second):
+				cancel()
+			case <-returned:
+			}
+		}()
 		chans, err := ws.Wait(ctx, settle)
 		ret := time.Since(start)
+		close(returned)
 		// results of earlier calls belong to the caller: a later Wait must not change them
 		for _, e := range earlier {
 			if !slices.Equal(e.got, e.copy) {
@@ -278,6 +299,7 @@ func genCase(t *rapid.T) Case {
 	}
 	if calls == 2 && len(c.Members) > 0 {
 		c.AddLate = rapid.SliceOfN(rapid.IntRange(0, len(c.Members)-1), 0, 2).Draw(t, "late")
+		c.ByMerge = rapid.Bool().Draw(t, "byMerge")
 	}
 	return c
 }
